@@ -96,7 +96,7 @@ def main():
         mode = ('random', 'one', 'exact')[data[0] % 3]
         frame = c12.reframe(bytes(data[1:]))
         dec = c12.decodable(frame)
-        inc = c12.structurally_incomplete(frame)
+        inc = c12.structurally_incomplete(frame) or c12.value_overrun(frame)
         detail = {'frame': frame.hex()[:1200], 'mode': mode}
         if inc:
             out['structurally_incomplete'] += 1
